@@ -8,6 +8,7 @@ import (
 	"go/token"
 	"go/types"
 	"sort"
+	"strings"
 )
 
 type okind int
@@ -121,7 +122,7 @@ func (fc *FnCtx) assign(st *State, lhs ast.Expr, v Val) {
 					fc.storeDeref(st, cur, v)
 					return
 				}
-				st.vars[o] = Val{v.T, o.Type()}
+				st.vars[o] = Val{fc.nameIfBig(st, v.T, fc.smt.sortOf(o.Type()), "v_"+o.Name()), o.Type()}
 				return
 			}
 			if o.Pkg() != nil && o.Parent() == o.Pkg().Scope() {
@@ -459,9 +460,10 @@ func (fc *FnCtx) evalMulti(st *State, e ast.Expr, n int) []Val {
 // ---------- loops ----------
 
 type modSet struct {
-	vars  map[types.Object]bool
-	comps map[string][]ast.Expr // heap key -> base expressions (nil entry = unknown base => whole component)
-	all   bool
+	vars   map[types.Object]bool
+	comps  map[string][]ast.Expr // heap key -> base expressions (nil entry = unknown base => whole component)
+	fresh  map[string]bool       // component is also written at freshly allocated references (append / make inside the loop)
+	all    bool
 }
 
 func (fc *FnCtx) loopCtl(outs []Outcome, label string) (cont, brk []*State, rest []Outcome) {
@@ -560,8 +562,9 @@ func (fc *FnCtx) havocLoop(st *State, body ast.Node, extraVars []types.Object) {
 	}
 	// evaluate localized bases before havocking variables
 	type loc struct {
-		key  string
-		refs []string
+		key   string
+		refs  []string
+		fresh bool
 	}
 	var locs []loc
 	if !ms.all {
@@ -571,7 +574,7 @@ func (fc *FnCtx) havocLoop(st *State, body ast.Node, extraVars []types.Object) {
 		}
 		sort.Strings(keys)
 		for _, k := range keys {
-			l := loc{key: k}
+			l := loc{key: k, fresh: ms.fresh[k]}
 			whole := false
 			for _, b := range ms.comps[k] {
 				if b == nil {
@@ -584,7 +587,7 @@ func (fc *FnCtx) havocLoop(st *State, body ast.Node, extraVars []types.Object) {
 					break
 				}
 				obj := fc.info.Uses[id]
-				if obj == nil || ms.vars[obj] || fc.isBoxed(obj) {
+				if obj == nil || fc.isBoxed(obj) || (ms.vars[obj] && !l.fresh) {
 					whole = true
 					break
 				}
@@ -632,6 +635,24 @@ func (fc *FnCtx) havocLoop(st *State, body ast.Node, extraVars []types.Object) {
 			continue
 		}
 		cur := fc.comp(st, l.key, srt)
+		if l.fresh {
+			// written only at the listed references (values at loop entry) and at references allocated inside
+			// the loop: everything else that exists at loop entry is unchanged
+			nh := fc.smt.fresh("Hf_"+l.key, srt)
+			fc.smt.nfresh++
+			q := fmt.Sprintf("r!q%d", fc.smt.nfresh)
+			conds := []string{"(<= " + q + " " + st.top + ")"}
+			seenR := map[string]bool{}
+			for _, r := range l.refs {
+				if !seenR[r] {
+					seenR[r] = true
+					conds = append(conds, not(eq(q, r)))
+				}
+			}
+			st.assume(fmt.Sprintf("(forall ((%s Int)) (! (=> %s (= (select %s %s) (select %s %s))) :pattern ((select %s %s))))", q, and(conds...), nh, q, cur, q, nh, q))
+			st.heap[l.key] = nh
+			continue
+		}
 		// element sort of the outer array
 		inner := srt[len("(Array Int ") : len(srt)-1]
 		seen := map[string]bool{}
@@ -657,6 +678,9 @@ func (fc *FnCtx) havocAll(st *State) {
 	}
 	sort.Strings(keys)
 	for _, k := range keys {
+		if strings.Contains(k, ".ghost_") {
+			continue // ghost state changes only through contracts that name it
+		}
 		st.heap[k] = fc.smt.fresh("Ha_"+k, fc.smt.heapSort[k])
 	}
 	nt := fc.smt.fresh("top", "Int")
